@@ -152,6 +152,47 @@ def modules_on_lattice(ctx: Ctx, grid: Grid) -> None:
                                       "module": got[i].item(), "functional": want[i].item()})
 
 
+def spellings(ctx: Ctx) -> None:
+    """Time to maturity and volatility as 0-dim tensors or full tensors (the modules document tensors, not Python numbers);
+    positional or keyword; the strike as a Python number or a 0-dim tensor; a module whose strike / call flag is changed after construction: one formula, one value."""
+    cls = classes()
+    lm = torch.tensor([-0.5, -0.125, 0.0, 0.25], dtype=DT)
+    mlm = torch.tensor([-0.25, -0.125, 0.5, 0.25], dtype=DT)
+    t, v, K = 0.25, 0.5, 2.0
+    for p, (_, mcls) in cls.items():
+        for call in ([True, False] if p in PUT_OFFERED else [True]):
+            m = mcls(call=call, strike=K)
+            for g in GREEKS:
+                path = p in PATH_DEPENDENT
+                full = {"log_moneyness": lm, "time_to_maturity": torch.full_like(lm, t), "volatility": torch.full_like(lm, v)}
+                if path:
+                    full["max_log_moneyness"] = mlm
+                try:
+                    base = getattr(m, g)(**{k: x.clone() for k, x in full.items()}).detach()
+                    order = m.inputs()
+                    variants = {
+                        "0-dim tensors": getattr(m, g)(**{**{k: x.clone() for k, x in full.items()}, "time_to_maturity": torch.tensor(t, dtype=DT), "volatility": torch.tensor(v, dtype=DT)}),
+                        "positional": getattr(m, g)(*[full[k].clone() for k in order]),
+                        "0-dim strike": getattr(mcls(call=call, strike=torch.tensor(K, dtype=DT)), g)(**{k: x.clone() for k, x in full.items()}),
+                    }
+                    if g != "price":      # broadcasting of the volatility / time arguments is documented (and claimed by C07) for prices;
+                        del variants["0-dim tensors"]     # Greeks obtained by differentiation return the gradient of the 0-dim leaf
+                    late = mcls(call=True, strike=1.0)
+                    late.strike = K
+                    if p in PUT_OFFERED:
+                        late.call = call
+                    variants["strike and flag set after construction"] = getattr(late, g)(**{k: x.clone() for k, x in full.items()})
+                except Exception as ex:
+                    ctx.violation(f"module:spelling:{p}:raises", f"{mcls.__name__}.{g} raised {type(ex).__name__} for an admissible spelling of its arguments", {"call": call, "error": repr(ex)[:300]})
+                    continue
+                for label, got in variants.items():
+                    got = got.detach()
+                    ctx.count(n=1)
+                    if got.shape != base.shape or got.dtype != base.dtype or not bool((((got - base).abs() <= 1e-12 * (1 + base.abs())) | (got.isnan() & base.isnan())).all()):
+                        ctx.violation(f"module:spelling:{p}:{g}", f"{mcls.__name__}.{g}: the value changes with the spelling of the arguments ({label})",
+                                      {"call": call, "variant": label, "base": base.tolist(), "observed": got.flatten().tolist()[:4], "observed_dtype": str(got.dtype)})
+
+
 def check(ctx: Ctx) -> None:
     tier = "thorough" if ctx.tier == "thorough" else "quick"
     torch.set_default_dtype(torch.float64)
@@ -172,6 +213,7 @@ def check(ctx: Ctx) -> None:
     if not seen.get("homogeneous"):
         raise MachineryError("no homogeneity obligation")
     modules_on_lattice(ctx, grid)
+    spellings(ctx)
     for r in recs:
         ctx.distinct.add(json.dumps([r["p"], r["call"], r["strike"], r["built"], r["meth"], sorted(r["given"])]))
     for r in alg.records:
